@@ -186,6 +186,14 @@ def run_typing(case, ctx, rep, pytrs):
                         f"flags from {before} to {after}", dedup='nc')
                 judge_description(d, d.tracts, case, ctx,
                                   'after parse(commit=False)')
+                # ... and still 'flawed exactly when it has an error flag'
+                # once tracts have been filtered out of the description.
+                d.filter_errors(drop=True)
+                judge_description(d, d.tracts, case, ctx,
+                                  'after filter_errors(drop=True)')
+                d.filter(lambda t: True, drop=True)
+                judge_description(d, d.tracts, case, ctx,
+                                  'after every tract was dropped')
                 # Standalone Tract.
                 t = pytrs.Tract(text, config=cfg, parse_qq=True)
                 why = holder_problem(t, 'Tract')
@@ -225,6 +233,9 @@ def gen_trigger_case(rng):
     pair_kind = kinds[0] if kinds and rng.random() < 0.3 else None
     for kind, pos in zip(kinds, chosen):
         phrase, key = rng.choice(TRIGGERS[kind])
+        # whatever ordinary words follow the wording
+        phrase += rng.choice(['', '', '', ' as drilled', ' as shown on the plat',
+                              ' only', ' thereof', ' if any', ' as to all'])
         second = None
         if kind == pair_kind:
             # Two wordings of the same kind, 10-70 characters of ordinary
